@@ -49,3 +49,11 @@ CLAIMED.update({
    text="Decides the clause 'names invented by normalisation cannot be written by a user'. Three known findings (precedence level names, repeat bindings v/e) are genuine defects recorded in known_findings.json. Hygiene of local binders inside emitted bodies is NOT decided.",
    note="trusted: syn parse + call-chain extraction"),
 })
+CLAIMED.update({
+ "C05": dict(level="other", design="§2 C05", technique="static analysis: value-flow rule on the MIR of unrecognized_token_error and its callers + template wiring rules (override -> simulation over TERMINAL) + sibling rule across backends",
+   text="Decides which computation is wired in: the runtime fills `expected` from expected_tokens_from_states(whole stack), the generated override filters TERMINAL through the accepts simulation, TERMINAL excludes exactly the error column; a backend not using the simulation is reported (known finding: recursive ascent). Validity of each listed terminal is NOT decided.",
+   note="trusted: rustc MIR; syn parse"),
+ "C11": dict(level="other", design="§2 C11", technique="static analysis: unit-consistency (alphabet) rule on the MIR of lexer::nfa::Nfa::expr: Test constructors tagged BYTE/SCALAR by parameter type, arms identified by enum downcasts, build alphabet from the crate's cfg",
+   text="Decides one necessary clause: all NFA edge labels of a build live in one alphabet (literals vs classes). Equivalence of the overlap computation with the runtime matcher is NOT decided.",
+   note="trusted: rustc MIR/types; regex-syntax yields Class::Unicode in Unicode mode"),
+})
